@@ -71,7 +71,7 @@ def tlc(module, cfg, *, workers="auto", env=None, timeout=1800, extra=(), deque=
         e.update({k: str(v) for k, v in env.items()})
     # java is started directly (not through the `tlc` wrapper) so that -Xss also applies to the main thread,
     # in which TLC evaluates initial states and constant expressions (deep recursive operators)
-    jopts = ["-XX:+UseParallelGC", "-Xss512m"]
+    jopts = ["-XX:+UseParallelGC", "-Xss512m", f"-Djava.io.tmpdir={meta}"]      # (TLC leaves an empty tlc-* directory there)
     if deque:
         jopts.append("-Dtlc2.tool.queue.IStateQueue=StateDeque")
     cmd = ["java"] + jopts + ["-cp", TLA_CP, "tlc2.TLC", "-workers", str(workers), "-metadir", str(meta), "-noGenerateSpecTE", "-config", str(cfg)]
